@@ -38,6 +38,7 @@ def run(prog, chk):
     pipeline(prog, chk)
     prev_point(prog, chk)
     identical_operands(prog, chk)
+    gap_is_a_number(prog, chk)
     from props import C11
     C11.axis_consistency(prog, chk)  # dx / dy and coordinates never cross axes (shared with C11)
     from props import geomalg
@@ -289,3 +290,14 @@ def identical_operands(prog, chk):
                 bad.append(body.where(bb, t.get("line")))
     chk.floor("A16.min-max-operands", n, 20, "f32::min/max call in the geometry code")
     chk.ob(not bad, "A16.min-max-operands", "geometry", "src/element.rs", f"none of the {n} min/max calls in the geometry code compares an operand with itself", f"min/max of an operand with itself at {bad}: one of the two intended operands is ignored (e.g. `y2.max(y2)` for a line drawn upwards)")
+
+
+def gap_is_a_number(prog, chk):
+    """the gap of `|h |H |v |V` is a plain number of user units (either sign): eval_rel_position reads it with strp and
+    never routes it through the edge-offset machinery (Length / calc_offset), whose negative values mean `from the far end`"""
+    b = prog.body(EL + "::eval_rel_position")
+    chk.touch(b)
+    bad = [c.path for (bb, t, c) in b.call_sites(lambda c: c.path.split("::")[-1] in ("strp_length", "calc_offset", "evaluate", "adjust") and "svgdx::position" in c.path)]
+    nums = b.call_sites(lambda c: c.path == "svgdx::types::strp")
+    chk.floor("A14.gap-number", len(nums), 1, "strp call in eval_rel_position")
+    chk.ob(not bad, "A14.gap-number", "eval_rel_position", b.where(), "the gap is parsed as a plain number", f"eval_rel_position treats the gap as a Length ({sorted(set(x.split('::')[-1] for x in bad))}): a negative gap is interpreted as an offset from the far end of the reference box instead of an overlap")
